@@ -59,6 +59,7 @@ FAMILIES = {
     "pause-directed": "directed",
     "maint-directed": "directed",
     "backlog-directed": "directed",
+    "dreject-directed": "directed",
     # broker maintenance (run when any client connects or disconnects) while messages with short, default and day-long execution
     # timeouts are in flight with live consumers: nothing is taken away from a live holder before its timeout
     "maint": ([("q1", None, "NORMAL")], ["ta"],
@@ -120,6 +121,22 @@ def directed_backlog():
     return out
 
 
+def directed_dreject():
+    """a delayed message -- in each of the forms a delay can take -- is looked at through the DELAYED category before it is due
+    and put back (reject, or finish of the consumer): normal consumers still get it at its due time, not before"""
+    out = []
+    all_w = {"enq": 1, "consume": 1, "reject": 1, "ack": 1, "sleep": 1, "finish": 1, "start": 1}
+    for kind in ("net", "until", "defer", "defer+net"):
+        for back in ("reject", "finish"):
+            for delay in (1500, 2600):
+                ops = [("enqx", "ta", delay, None), ("start", 1), ("consume", 1)]
+                ops += [("reject", 1, 0)] if back == "reject" else [("finish", 1)]
+                ops += [("start", 0), ("consume", 0), ("sleep", 300), ("consume", 0), ("sleep", delay), ("consume", 0), ("ack", 0, 0), ("consume", 0)]
+                out.append(dict(seed=7900 + len(out), consumers=[("q1", None, "NORMAL"), ("q1", None, "DELAYED")], topics=["ta"], script=ops,
+                                weights=all_w, consume_tmo_ms=[400], max_ids=4, delay_kind=kind, no_inject=True))
+    return out
+
+
 def directed_maint():
     """a message with execution timeout T is held by a live consumer for w seconds; other clients connect / disconnect
     (maintenance) meanwhile; then it is settled, and a second one goes through: nothing is taken from a live holder"""
@@ -137,7 +154,7 @@ def directed_maint():
 
 PER_PROPERTY = {
     "C01": ["n", "n+x", "n+d", "n+n", "topics", "2q", "same-due", "same-due-topics", "flush"],
-    "C05": ["delay", "latency", "due-behind", "backlog-directed", "n+d", "same-due"],
+    "C05": ["delay", "latency", "due-behind", "backlog-directed", "dreject-directed", "n+d", "same-due"],
     "C12": ["ttl", "n+x", "n"],
     "C14": ["n+n", "topics", "n+x", "2q", "maint", "maint-directed"],
     "C15": ["fifo1", "fifoprio", "fifo-ret", "starve", "pause", "pause-directed", "n"],
@@ -226,7 +243,7 @@ def run(pid: str, tier: str, seed: int, *, replay: dict | None = None) -> int:
             for fam in PER_PROPERTY[pid]:
                 if FAMILIES[fam] == "directed":
                     scs += [dict(sc, backend=be) for sc in {"pause-directed": directed_pause, "maint-directed": directed_maint,
-                                                            "backlog-directed": directed_backlog}[fam]()
+                                                            "backlog-directed": directed_backlog, "dreject-directed": directed_dreject}[fam]()
                             if not (fam == "backlog-directed" and be == "rabbit")]   # (RabbitMQ: finding rabbit-foreign-topic-blocks, owned by C11)
                     continue
                 consumers, topics, extra = FAMILIES[fam]
